@@ -298,7 +298,21 @@ pub fn mutate(rng: &mut Rng, b: &Base, m: usize) -> (Vec<u8>, String) {
                 inst.push(rng.word());
             }
             w.extend(inst);
-            (to_bytes(&w), format!("constant of type %{} with {} literal words", ty, nw))
+            // ... whose type is declared only AFTERWARDS, with a width at the edge of every range (the parser
+            // has sized the literal as "unknown type"; a disassembler that scans all declarations first sees
+            // the late one)
+            let mut late = String::new();
+            if rng.chance(1, 2) {
+                let width = *rng.pick(&[0u32, 1, 7, 8, 9, 15, 16, 17, 31, 32, 33, 63, 64, 65, 127, 128, 0x8000_0000, u32::MAX]);
+                if rng.chance(1, 2) {
+                    w.extend([(4 << 16) | d.inst("TypeInt").opcode as u32, ty, width, rng.below(2) as u32]);
+                    late = format!(", then %{} = OpTypeInt {}", ty, width);
+                } else {
+                    w.extend([(3 << 16) | d.inst("TypeFloat").opcode as u32, ty, width]);
+                    late = format!(", then %{} = OpTypeFloat {}", ty, width);
+                }
+            }
+            (to_bytes(&w), format!("constant of type %{} with {} literal words{}", ty, nw, late))
         }
         15 => {
             // a module header where an instruction must start: two modules concatenated, a module repeated
